@@ -665,21 +665,21 @@ def run(ctx):
     _jax()
     rng = ctx.rng
     cases = _corpus()
-    for _ in range(ctx.n(160, 3000)):
+    for _ in range(ctx.n(160, 1500)):
         cases.append(gen_binop(rng))
-    for _ in range(ctx.n(40, 400)):
+    for _ in range(ctx.n(40, 250)):
         cases.append(dict(op="unary", f=rng.choice(list(UNOPS)), x=gen_tree(rng, rng.choice([1, 2, 3]))))
-    for _ in range(ctx.n(40, 400)):
+    for _ in range(ctx.n(40, 250)):
         cases.append(dict(op="reduce", x=gen_tree(rng, rng.choice([0, 1, 2, 3])), how=rng.randrange(2)))
-    for _ in range(ctx.n(40, 400)):
+    for _ in range(ctx.n(40, 250)):
         a = gen_tree(rng, rng.choice([1, 2, 3]))
         b = same_struct(rng, a) if rng.random() < 0.85 else mutate_struct(rng, same_struct(rng, a))
         cases.append(dict(op="vdot", a=a, b=b, how=rng.randrange(3)))
-    for _ in range(ctx.n(40, 400)):
+    for _ in range(ctx.n(40, 250)):
         cases.append(gen_where(rng))
-    for _ in range(ctx.n(40, 600)):
+    for _ in range(ctx.n(40, 300)):
         cases.append(gen_smap(rng))
-    for _ in range(ctx.n(25, 300)):
+    for _ in range(ctx.n(25, 200)):
         a = gen_tree(rng, rng.choice([1, 2, 3]), -5, 5)
         cases.append(dict(op="cplx", a=a, ai=same_struct(rng, a, -5, 5), b=same_struct(rng, a, -5, 5), bi=same_struct(rng, a, -5, 5)))
     outs = ctx.model(DRIVER, [model_request(c) for c in cases])
